@@ -100,7 +100,8 @@ class Check:
     # ---- TLC -------------------------------------------------------------
     def _tlc(self, specdir, tla, cfg, env_extra, workers, metadir, timeout, extra=()):
         env = dict(os.environ)
-        env.setdefault("JAVA_TOOL_OPTIONS", "-Xss512m")   # deep RECURSIVE operators on long traces
+        # deep RECURSIVE operators on long traces need stack; 16 trace JVMs run side by side, so cap the heap
+        env["JAVA_TOOL_OPTIONS"] = "-Xss512m " + ("-Xmx3g" if workers == 1 else "-Xmx12g")
         env.update(env_extra)
         cmd = ["tlc", "-workers", str(workers), "-metadir", metadir, "-config", cfg] + list(extra) + [tla]
         try:
